@@ -13,14 +13,17 @@ def run(c):
               "(MinInt64, MaxInt64, +-6e18, +-2^62, pairs more than 2^63 apart), storage answers consistent across functions (75%) or thinned per function, sorted (85%: the rows of one "
               "second in the order ClickHouse gives them for the ORDER BY text the real query builder generates for this request) or shuffled, "
               "clean (92%) or with duplicate keys / ungrouped tags / rows outside their LOD, 1/60 answers are errors; 1-4 direct limitQueries calls "
-              "per case plus one getTableFromLODs call, plus 4 direct calls of the real queryTableRows.Less and 3 of the real lessThan on boundary "
+              "per case plus one getTableFromLODs call, plus 2-3 calls of the REAL getHandlerWhat (function lists with every DigestWhat code, duplicates, runs sharing a storage selector, more "
+              "than 7 selectors; the request of the case itself, whose real grouping drives the table while the oracle counts columns against "
+              "the request), plus 4 direct calls of the real queryTableRows.Less and 3 of the real lessThan on boundary "
               "int64 pairs (ops cmp/mlt, compared with the model's order on unbounded integers and with a reference lexicographic order). Non-trivial = a marker has the time of a stored row (window boundary inside a time group), "
               "or NaN padding happened with >1 handler-what, or has-more was set with >1 LOD, or a descending handleGetTable case with rows in both LODs; "
               "distinct by op-sequence hash")
     c.assumptions += [
         "loadPoints (ClickHouse + cache) is an input of the model: any list of time groups per (handler-what, LOD), or an error",
-        "getHandlerWhat's grouping of the requested functions is an input (the harness passes what the real function returned); value() is not "
-        "modelled: the harness requests only functions whose value is one stored field at LOD step = query step = 1 (exact integers)",
+        "getHandlerWhat is modelled (SH.Model.Table: selectorOf, sortFns, groupStep) and compared with the real function on generated function "
+        "lists of every kind; DigestWhat.Selector() is compared code by code (seltab). value() is not modelled: the table pipeline requests "
+        "only functions whose value is one stored field at LOD step = query step = 1 (exact integers; unique* on an empty sketch = 0)",
         "strings are compared through order-preserving codes of a fixed pool; numeric tag 47 is 0 (SKey comes from the string column)",
         "sort.Sort leaves the order of rows with equal rowRepr unspecified: model and harness order such runs by the full key",
         "limit/has-more/page oracles apply only when every requested function sees the same clean keys (what a GROUP BY returns)",
@@ -29,7 +32,7 @@ def run(c):
         "handleGetTable cases depend on time.Now() only through the position of the 52h LOD switch; they are printed in abstract times",
     ]
     # helper lemmas live in SH/Lemmas/Table*.lean; they are dependencies of the audited theorems (axiom audit is transitive)
-    c.prove("SH.Props.C25", extra_files=["SH/Model/Table.lean", "SH/Lemmas/Table.lean", "SH/Lemmas/TableCells.lean", "SH/Lemmas/TableOrder.lean", "SH/Lemmas/TablePage.lean"])
+    c.prove("SH.Props.C25", extra_files=["SH/Model/Table.lean", "SH/Lemmas/Table.lean", "SH/Lemmas/TableCells.lean", "SH/Lemmas/TableOrder.lean", "SH/Lemmas/TablePage.lean", "SH/Lemmas/TableWhats.lean"])
     drv = c.driver(DRIVER)
     binary = c.go_build(HARNESS)
     if binary and drv:
@@ -59,8 +62,9 @@ META = {
              "(rows_unique_by_time_tags); the result is ordered by the visible key in the requested direction (rows_sorted), where the comparator is "
              "exactly the lexicographic order on (time, number of tags, tag values as unbounded integers, skey) and a strict total order "
              "(less_lex, less_total) — the real comparators are checked against it on boundary int64 pairs; the table holds exactly "
-             "the pages of the requested functions across the LOD split and has-more is exact (table_page); every row has one column per requested "
-             "function (one_column_per_function) and every cell block is the storage values of the row with that key on the page of that function, "
+             "the pages of the requested functions across the LOD split and has-more is exact (table_page); getHandlerWhat drops no requested function and keeps their order, 1..7 selectors per storage query "
+             "(getHandlerWhat_keeps_every_function), so with the modelled grouping every row has exactly one column per requested function and "
+             "column i is function i of the sorted request (one_column_per_requested_function; one_column_per_function for an arbitrary grouping) and every cell block is the storage values of the row with that key on the page of that function, "
              "NaN in all its columns iff that page has no row with the key (cell_content, cell_content_page, cellBlock_value, cellBlock_nan_iff) — "
              "the last three for storage answers without duplicate keys per function; under the storage-order contract (StorageContract / VisitSorted: answers in ascending LOD order, ascending time groups, the rows "
              "of one time group in the requested order — what the ORDER BY text generated since e9888cce asks the storage for; the harness stub "
@@ -74,7 +78,7 @@ META = {
              "padding per handler-what, shared rowRepr.Tags array (getTableAliased; replayed on the pre-fix tree: same order and markers), and the "
              "double LOD reversal of handleGetTable (Caller.reversesFromEnd). The model is tied to /repo by replaying each generated request on the "
              "real code and on the compiled model and diffing rows, NaN pattern and flag."),
-    "note": ("Trusted: Lean kernel; model<->code correspondence on generated requests (quick 3000, thorough 200000); getHandlerWhat, value(), "
+    "note": ("Trusted: Lean kernel; model<->code correspondence on generated requests (quick 3000, thorough 200000); value(), "
              "sort.Sort, Go maps, GetLODs and cache2 are inputs/trusted; ClickHouse is not run (the stub honours the generated ORDER BY text). "
              "Hypotheses that remain (they are facts about the storage, not about table.go): the storage-order contract and rows inside their "
              "LOD for the page theorems (ClickHouse is not run; a counterexample without the contract is in Props), duplicate-free answers per "
